@@ -158,6 +158,12 @@ func runC08(c *core.Ctx) {
 						map[string]any{"fn": name, "input": math.Float64frombits(in[idx]), "position": idx, "buffer_len": len(in), "channels": sc.ch})
 				}
 				c.Obs("chunks_also_converted_in_reverse_order", 1)
+				if idx, got := sc.windowsCheck(in, out); idx >= 0 {
+					viol++
+					c.Violate(name+"|window-dependence", caseID, fmt.Sprintf("position %d converts to amplitude %d in one call and to amplitude %d when the same samples are converted in three pieces through pairs of Slice windows, last piece first", idx, amp(dt, out[idx]), amp(dt, got)),
+						map[string]any{"fn": name, "position": idx, "buffer_len": len(in), "channels": sc.ch})
+				}
+				c.Obs("chunks_also_converted_piecewise_through_windows_last_piece_first", 1)
 			}
 			for i, raw := range in {
 				x := math.Float64frombits(raw)
